@@ -278,6 +278,8 @@ impl Check for C08 {
         // adjacent group): the command owns exactly its contiguous block, what follows goes
         // back to the parent - judged by C19's block scanner
         use crate::checks::c19::{NestDef, W};
+        // a command inside an optional member of a group that is one branch of an alternative
+        out.push(json!({"odd": 0}));
         for cmd_wrap in [W::Bare, W::Opt, W::Many] {
             for two_values in [false, true] {
                 for inner_switch in [false, true] {
@@ -288,6 +290,10 @@ impl Check for C08 {
         out
     }
     fn run_unit(&self, unit: &Value, ctx: &mut Ctx) {
+        if let Some(k) = unit.get("odd").and_then(|k| k.as_u64()) {
+            crate::checks::c10::run_odd_command("C08", k as usize, unit, None, ctx);
+            return;
+        }
         if let Some(n) = unit.get("nest") {
             let d: crate::checks::c19::NestDef = serde_json::from_value(n.clone()).unwrap();
             if let Ok(p) = build_checked(&crate::checks::c19::nest_opts(&d)) {
@@ -331,6 +337,11 @@ impl Check for C08 {
         check_help(&u.level, unit, &p, ctx);
     }
     fn replay(&self, unit: &Value, case: &Value, ctx: &mut Ctx) {
+        if let Some(k) = unit.get("odd").and_then(|k| k.as_u64()) {
+            let argv: Vec<Tok> = serde_json::from_value(case["argv"].clone()).unwrap_or_default();
+            crate::checks::c10::run_odd_command("C08", k as usize, unit, Some(&argv), ctx);
+            return;
+        }
         if let Some(n) = unit.get("nest") {
             let d: crate::checks::c19::NestDef = serde_json::from_value(n.clone()).unwrap();
             let argv: Vec<Tok> = serde_json::from_value(case["argv"].clone()).unwrap_or_default();
